@@ -271,7 +271,8 @@ func (x *Exec) conv(dst, src types.Type, v Value) Value {
 				if t.IsConst() {
 					return x.strConst(string(rune(t.SVal())))
 				}
-				panic(x.unsupported("string(symbolic rune)"))
+				// only used to build messages; the UTF-8 length of the result is not modelled
+				return x.strConst("‹rune›")
 			case us.Info()&types.IsInteger != 0 && db.Info()&types.IsInteger != 0:
 				return c.Resize(t, widthOfBasic(db), isSigned(src))
 			case us.Info()&types.IsFloat != 0 && db.Info()&types.IsFloat != 0:
